@@ -37,6 +37,153 @@ func c16NewCKKS(name string, logN int, qbits, pbits []int, logScale int) c16CKKS
 	return c16CKKSSet{c14Set: base, cp: cp, enc: ckks.NewEncoder(cp)}
 }
 
+// c16PrimeAbove returns the (skip+1)-th prime ≡ 1 mod twoN above 2^bits.
+func c16PrimeAbove(bits int, twoN uint64, skip int) uint64 {
+	c := (uint64(1) << uint(bits)) + 1
+	for {
+		if ring.IsPrime(c) {
+			if skip == 0 {
+				return c
+			}
+			skip--
+		}
+		c += twoN
+	}
+}
+
+func c16NewCKKSFromPrimes(name string, logN int, q, p []uint64, logScale int) c16CKKSSet {
+	cp, err := ckks.NewParametersFromLiteral(ckks.ParametersLiteral{LogN: logN, Q: q, P: p, LogDefaultScale: logScale})
+	if err != nil {
+		panic(fmt.Errorf("c16 ckks params %s: %w", name, err))
+	}
+	base := c14Set{name: name, params: cp.Parameters, n: 1 << logN, q: q, p: p}
+	return c16CKKSSet{c14Set: base, cp: cp, enc: ckks.NewEncoder(cp)}
+}
+
+func c16FloorLog2(n int) int {
+	k := 0
+	for n > 1 {
+		n >>= 1
+		k++
+	}
+	return k
+}
+
+// c16MinLevelExact: the documented computation in integer arithmetic (same as the Lean model).
+func c16MinLevelExact(lambda int, scale uint64, n int, moduli []uint64) (int, uint, bool) {
+	clog := func(x uint64) uint {
+		k := uint(0)
+		for k < 64 && uint64(1)<<k < x {
+			k++
+		}
+		return k
+	}
+	lb := uint(lambda) + clog(scale)
+	bound := new(big.Int).Lsh(big.NewInt(1), lb+clog(uint64(n)))
+	q := big.NewInt(1)
+	ml := -1
+	for i := 0; q.Cmp(bound) < 0; i++ {
+		if i >= len(moduli) {
+			return 0, 0, false
+		}
+		q.Mul(q, new(big.Int).SetUint64(moduli[i]))
+		ml++
+	}
+	return ml, lb, true
+}
+
+// c16MinLevelLine ties GetMinimumLevelForRefresh to the exact-arithmetic model.  When a cumulative
+// modulus lies within 2^-40 (relative) of the bound 2^(logBound + ⌈log2 n⌉) the code's float64
+// logarithms cannot separate them: those points are checked by a probe (finding key
+// C16-ckks-minlevel-float) instead of a tie line.
+func c16MinLevelLine(c *Ctx, lambda int, scale uint64, n int, moduli []uint64) (int, uint, bool) {
+	ml, lb, ok := mpckks.GetMinimumLevelForRefresh(lambda, rlwe.NewScale(scale), n, moduli)
+	eml, elb, eok := c16MinLevelExact(lambda, scale, n, moduli)
+	near := false
+	B := int(elb) + c16FloorLog2(2*n-1) // logBound + ⌈log2 n⌉ (valid also when no level exists)
+	if !eok {
+		cl := uint(0)
+		for uint64(1)<<cl < scale {
+			cl++
+		}
+		B = lambda + int(cl) + c16FloorLog2(2*n-1)
+	}
+	q := big.NewInt(1)
+	for _, m := range moduli {
+		q.Mul(q, new(big.Int).SetUint64(m))
+		d := new(big.Int).Sub(q, new(big.Int).Lsh(big.NewInt(1), uint(B)))
+		d.Abs(d)
+		if B >= 40 && d.Cmp(new(big.Int).Lsh(big.NewInt(1), uint(B-40))) < 0 {
+			near = true
+		}
+	}
+	if near {
+		detail := ""
+		if ml != eml || lb != elb || ok != eok {
+			detail = fmt.Sprintf("float_result=(%d,%d,%t)_exact=(%d,%d,%t)", ml, lb, ok, eml, elb, eok)
+		}
+		c.Probe("min_level_exact", fmt.Sprintf("ckks lambda=%d scale=%d N=%d moduli=%s", lambda, scale, n, Vec(moduli)), "C16-ckks-minlevel-float", detail)
+		return ml, lb, ok
+	}
+	okTok := 0
+	if ok {
+		okTok = 1
+	}
+	c.Emit(fmt.Sprintf("ckks_minlevel %d %d %d %s", lambda, scale, n, Vec(moduli)), fmt.Sprintf("%d %d %d", ml, lb, okTok))
+	c.Count("ckks_minlevel")
+	return ml, lb, ok
+}
+
+func c16CumBits(moduli []uint64, l int) int {
+	q := big.NewInt(1)
+	for _, m := range moduli[:l+1] {
+		q.Mul(q, new(big.Int).SetUint64(m))
+	}
+	return q.BitLen() - 1 // floor(log2 Q_l)
+}
+
+// c16MinLevelTies: party counts 1..8 × scales × λ × chains, including for every level l and every
+// non-power-of-two party count the λ that puts 2^(logBound + ⌊log2 n⌋) ≤ Q_l < 2^(logBound + ⌈log2 n⌉)
+// (the window where rounding log2(nParties) down instead of up returns a level that is too low), ±1.
+func c16MinLevelTies(c *Ctx) {
+	chains := [][]uint64{}
+	for _, set := range c16CKKSSets() {
+		chains = append(chains, set.q)
+	}
+	chains = append(chains,
+		[]uint64{c16PrimeAbove(54, 32, 0), c16PrimeAbove(40, 32, 0), c16PrimeAbove(40, 32, 1), c16PrimeAbove(40, 32, 2)},
+		[]uint64{c14Prime(54, 32, 0), c14Prime(40, 32, 0), c14Prime(40, 32, 1), c14Prime(40, 32, 2), c14Prime(40, 32, 3)},
+		[]uint64{c16PrimeAbove(20, 32, 0), c16PrimeAbove(20, 32, 1), c14Prime(21, 32, 0), c16PrimeAbove(22, 32, 0), c14Prime(25, 32, 0), c16PrimeAbove(30, 32, 0)},
+		[]uint64{c14Prime(61, 32, 0)},
+	)
+	scales := []uint64{1, 1 << 20, 1 << 25, (1 << 25) + 1, (1 << 25) - 1, 1 << 30, 1 << 45, 786433}
+	for ci, chain := range chains {
+		for si, scale := range scales {
+			if !c.Thorough() && (ci+si)%3 != 0 {
+				continue
+			}
+			ceilLogScale := 0
+			for uint64(1)<<uint(ceilLogScale) < scale {
+				ceilLogScale++
+			}
+			for n := 1; n <= 8; n++ {
+				for _, lambda := range []int{0, 1, 6, 10, 40, 128} {
+					c16MinLevelLine(c, lambda, scale, n, chain)
+				}
+				for l := range chain {
+					for d := -1; d <= 1; d++ {
+						lambda := c16CumBits(chain, l) - c16FloorLog2(n) - ceilLogScale + d
+						if lambda >= 0 {
+							c16MinLevelLine(c, lambda, scale, n, chain)
+							c.Count("ckks_minlevel_engineered")
+						}
+					}
+				}
+			}
+		}
+	}
+}
+
 var c16CKKSCache []c16CKKSSet
 
 func c16CKKSSets() []c16CKKSSet {
@@ -45,6 +192,8 @@ func c16CKKSSets() []c16CKKSSet {
 			c16NewCKKS("ckks25", 4, []int{50, 30, 40}, []int{55}, 25),
 			c16NewCKKS("ckks30noP", 5, []int{55, 45}, nil, 30),
 			c16NewCKKS("ckks20", 5, []int{45, 35, 55}, []int{50, 51}, 20),
+			// primes just ABOVE powers of two: the cumulative moduli sit at the low end of a one-bit window
+			c16NewCKKSFromPrimes("ckksEdge", 4, []uint64{c16PrimeAbove(50, 32, 0), c16PrimeAbove(31, 32, 0), c16PrimeAbove(40, 32, 0)}, []uint64{c14Prime(56, 32, 0)}, 25),
 		}
 	}
 	return c16CKKSCache
@@ -127,7 +276,40 @@ func c16CKKSFuncs() []c16CKKSFunc {
 
 func c16CKKS(c *Ctx, ns []int) {
 	funcs := c16CKKSFuncs()
+	c16MinLevelTies(c)
 	for si, set := range c16CKKSSets() {
+		// at the returned minimum level, for non-power-of-two party counts, with λ chosen so that
+		// 2^(logBound + ⌊log2 n⌋) ≤ Q_l < 2^(logBound + ⌈log2 n⌉) for some level l
+		for _, n := range []int{3, 5, 6, 7} {
+			if !c.Thorough() && n > 5 {
+				continue
+			}
+			for l := 0; l < set.maxQ(); l++ {
+				lambda := c16CumBits(set.q, l) - c16FloorLog2(n) - set.cp.LogDefaultScale()
+				if lambda < 6 {
+					c.Count("ckks_min_level_engineered_skipped(lambda<6)")
+					continue
+				}
+				ml, lb, ok := c16MinLevelLine(c, lambda, uint64(1)<<uint(set.cp.LogDefaultScale()), n, set.q)
+				detail := ""
+				if !ok {
+					detail = "no_level_found"
+				} else {
+					need := new(big.Int).Lsh(big.NewInt(int64(n)), lb)
+					if set.params.RingQ().AtLevel(ml).ModulusAtLevel[ml].Cmp(need) < 0 {
+						detail = fmt.Sprintf("Q_level_%d_below_nParties*2^logBound", ml)
+					}
+				}
+				c.Probe("min_level_holds_masks", fmt.Sprintf("ckks set=%s N=%d lambda=%d window_level=%d minLevel=%d logBound=%d", set.name, n, lambda, l, ml, lb), "C16-ckks-minlevel", detail)
+				if ok && ml <= set.maxQ() {
+					for rep := 0; rep < c.Scale(2, 4); rep++ {
+						c16CKKSRun(c, set, n, ml, set.maxQ(), 3.2, lb, set.cp.LogMaxSlots(), nil, false)
+						c16CKKSRun(c, set, n, ml, set.maxQ(), 3.2, lb, set.cp.LogMaxSlots(), nil, true)
+					}
+					c.Count("ckks_runs_at_engineered_min_level")
+				}
+			}
+		}
 		for ni, n := range ns {
 			lambda := []int{6, 10}[c.rng.Intn(2)]
 			minLevel, logBound, ok := mpckks.GetMinimumLevelForRefresh(lambda, set.cp.DefaultScale(), n, set.q)
@@ -220,6 +402,7 @@ func c16CKKSRun(c *Ctx, set c16CKKSSet, n, lin, lout int, sigma float64, logBoun
 	eq := func(x, y multiparty.KeySwitchShare) bool { return x.Value.Equal(&y.Value) }
 	label := fmt.Sprintf("ckks set=%s N=%d lin=%d lout=%d sigma=%g logBound=%d logSlots=%d inScale=2^%d f=%s", set.name, n, lin, lout, sigma, logBound, logSlots, inScaleLog, name)
 	Bn := c16Bound(noise)
+	var allMasks [][]*big.Int
 
 	if !refresh {
 		e2s := make([]mpckks.EncToShareProtocol, n)
@@ -259,6 +442,7 @@ func c16CKKSRun(c *Ctx, set c16CKKSSet, n, lin, lout int, sigma float64, logBoun
 				panic(err)
 			}
 			mask := c16Mask(mark, logBound, dslots)
+			allMasks = append(allMasks, mask)
 			if c16BigVec(mask) != c16BigVec(sec[i].Value[:dslots]) {
 				panic("c16: twin ckks mask differs")
 			}
@@ -289,8 +473,8 @@ func c16CKKSRun(c *Ctx, set c16CKKSSet, n, lin, lout int, sigma float64, logBoun
 
 		// e2s_sum: Σ shares − phase = Σ e_i
 		bound := big.NewInt(int64(n) * Bn)
-		detail := ""
-		for j := 0; j < dslots; j++ {
+		detail := c16MasksFit(params, allMasks, lin, inScaleLog)
+		for j := 0; j < dslots && detail == ""; j++ {
 			s := new(big.Int)
 			for i := range final {
 				s.Add(s, final[i].Value[j])
@@ -391,6 +575,7 @@ func c16CKKSRun(c *Ctx, set c16CKKSSet, n, lin, lout int, sigma float64, logBoun
 			panic(err)
 		}
 		mask := c16Mask(mark, logBound, dslots)
+		allMasks = append(allMasks, mask)
 		e1 := c16SampleSigned(params, tE[i], lin, false)
 		e2 := c16SampleSigned(params, tS[i], lout, false)
 		c16Record(fmt.Sprintf("ckks_refresh sigma=%g", sigma), e1)
@@ -477,6 +662,21 @@ func c16CKKSRun(c *Ctx, set c16CKKSSet, n, lin, lout int, sigma float64, logBoun
 		if out.Scale.Cmp(set.cp.DefaultScale()) != 0 {
 			return "output_scale_is_not_the_default_scale"
 		}
+		if d := c16MasksFit(params, allMasks, lin, inScaleLog); d != "" {
+			return d
+		}
+		// receivers allocated at every level, pre-filled with junk: same output at the CRP's level
+		var others []*rlwe.Ciphertext
+		for r := 0; r <= set.maxQ(); r++ {
+			o := c14RandCt(c, params, 1, r)
+			if err := protos[0].Transform(ct.CopyNew(), tf, crp, agg, o); err != nil {
+				return fmt.Sprintf("Transform_error_receiver_level_%d", r)
+			}
+			others = append(others, o)
+		}
+		if d := c16SameCt(out, others, lout); d != "" {
+			return d
+		}
 		ratio := math.Exp2(float64(set.cp.LogDefaultScale() - inScaleLog))
 		if fn == nil {
 			// exact: phase_out − phase_in·Δout/Δin within N·(B·ratio + B) + N + 2
@@ -522,6 +722,28 @@ func c16CKKSRun(c *Ctx, set c16CKKSSet, n, lin, lout int, sigma float64, logBoun
 		return ""
 	})
 	c.Probe(probe, label+" within_precision", key, detail)
+}
+
+// c16MasksFit: the masked plaintext m − Σ M_i must not wrap modulo Q_level:
+// |Σ_i M_i[j]| + 2^(log scale + 1) < Q_level / 2 for every coefficient.
+func c16MasksFit(params rlwe.Parameters, masks [][]*big.Int, lvl, logScale int) string {
+	if len(masks) == 0 {
+		return ""
+	}
+	half := new(big.Int).Rsh(params.RingQ().AtLevel(lvl).ModulusAtLevel[lvl], 1)
+	msg := new(big.Int).Lsh(big.NewInt(1), uint(logScale+1))
+	for j := range masks[0] {
+		s := new(big.Int)
+		for i := range masks {
+			s.Add(s, masks[i][j])
+		}
+		s.Abs(s)
+		s.Add(s, msg)
+		if s.Cmp(half) >= 0 {
+			return fmt.Sprintf("mask_sum_2^%d_wraps_modulo_Q_level_2^%d", s.BitLen(), half.BitLen()+1)
+		}
+	}
+	return ""
 }
 
 func c16RefreshMetaProbe(c *Ctx, label string, f func() error, n int) {
